@@ -659,16 +659,20 @@ pub fn rekey(
 
     for r in rights {
         if msk.secrets.contains_key(&r) {
-            let is_hybridized = msk
+            // The new secret inherits the activation status of the current
+            // one: re-keying must not allow encrypting for a disabled right.
+            let (is_activated, is_hybridized) = msk
                 .secrets
                 .get_latest(&r)
-                .map(|(_, k)| k.is_hybridized())
+                .map(|(is_activated, k)| (*is_activated, k.is_hybridized()))
                 .ok_or_else(|| {
                     Error::OperationNotPermitted(format!("no current key for coordinate {r:#?}"))
                 })?;
 
-            msk.secrets
-                .insert(r, (true, RightSecretKey::random(rng, is_hybridized)?));
+            msk.secrets.insert(
+                r,
+                (is_activated, RightSecretKey::random(rng, is_hybridized)?),
+            );
         } else {
             return Err(Error::OperationNotPermitted(
                 "cannot re-key a right not belonging to the MSK".to_string(),
